@@ -713,6 +713,42 @@ def run_case(prop, case, res):
             return
     if prop == "C07":
         nontrivial = (bool(ref.id_stalls or ref.flushes or ref.ex_stalls) and ref.cycles != len(ref.retire) + 4) or out["total_pen"] > 0
+    # ------------------------------------------------------------------ the same run with nobody watching
+    # Everything above was observed step by step (latches, registers, statistics read after every cycle).  A third of
+    # the programs runs once more through run() with no monitor attached and nothing read until it has returned: what
+    # it leaves must be what the observed run left (a result that is only right while somebody looks is wrong).
+    if (len(case["prog"]) + t) % 3 == 0:
+        from ..common import with_alarm, AlarmTimeout
+
+        sb = make_riscv("five", hz=hz, dcache=case.get("dcache"), icache=case.get("icache"))
+        install_program(sb, case["prog"])
+        set_regs(sb, case["regs"])
+        preload_mem(sb, case["mem"])
+        try:
+            with_alarm(20, sb.run)
+        except AlarmTimeout:
+            res.violation(VAL, "unobserved-run-differs", "run() with no monitor attached did not return within 20 s of CPU time; the observed run of the same program finished after %d steps" % t, case)
+            return
+        except Exception as e:
+            res.violation(VAL, "unobserved-run-differs", "run() with no monitor attached raised %r; the observed run of the same program completed" % (e,), case)
+            return
+        res.count("unobserved_runs_compared")
+        pb = sb.state.performance_metrics
+        vals_a = (real_regs(sim), sim.state.output, sim.state.exit_code, img, pm.instruction_count, pm.branch_count, pm.procedure_count)
+        vals_b = (real_regs(sb), sb.state.output, sb.state.exit_code, mem_image(sb), pb.instruction_count, pb.branch_count, pb.procedure_count)
+        if vals_a != vals_b:
+            names = ["registers", "output", "exit code", "memory", "instruction count", "branch count", "call count"]
+            res.violation(VAL, "unobserved-run-differs", "run() with no monitor attached leaves other %s than the observed step-by-step run" % [names[i] for i in range(7) if vals_a[i] != vals_b[i]], case)
+            return
+        if (pm.cycles, pm.stalls if not hz else None) != (pb.cycles, pb.stalls if not hz else None):
+            res.violation(TIM, "unobserved-run-differs", "run() with no monitor attached: cycle counter %d (stalls %d), observed step-by-step run %d (stalls %d)" % (pb.cycles, pb.stalls, pm.cycles, pm.stalls), case)
+            if prop in ("C07", "C08"):
+                return
+        sa_, sb_ = _stats(sim), _stats(sb)
+        if sa_[0] != sb_[0]:
+            res.violation("C09", "unobserved-run-differs", "data-cache (hits, accesses) after run() with no monitor attached %r, after the observed run %r" % (sb_[0], sa_[0]), case)
+        if sa_[1] != sb_[1]:
+            res.violation("C11", "unobserved-run-differs", "instruction-cache (hits, accesses) after run() with no monitor attached %r, after the observed run %r" % (sb_[1], sa_[1]), case)
     if nontrivial:
         res.nontrivial(h64([case["prog"], case["regs"], case["mem"], hz, case.get("dcache"), case.get("icache")]))
 
